@@ -994,34 +994,21 @@ type sbData struct {
 	values  []byte
 }
 
-// returns true if we set Block to blank 0 or some solid label
+// returns true if we set Block to blank 0 or some solid label.  A nil octant leaves that
+// portion of the receiving block unmodified, so only eight solid octants of one label make
+// the whole block solid.
 func (b *Block) setBlank(octants [8]*Block) bool {
-	var ok bool
-	var lbl uint64
-	if octants[0] == nil {
-		ok = true // nil octants are solid label 0 block
-	} else if len(octants[0].Labels) == 1 {
-		lbl = octants[0].Labels[0]
-		ok = true
+	if octants[0] == nil || len(octants[0].Labels) != 1 {
+		return false
 	}
-	if ok {
-		for i := 1; i < 8; i++ {
-			if octants[i] == nil {
-				if lbl != 0 {
-					ok = false
-					break
-				}
-			} else if len(octants[i].Labels) != 1 || lbl != octants[i].Labels[0] {
-				ok = false
-				break
-			}
-		}
-		if ok {
-			*b = *MakeSolidBlock(lbl, b.Size)
-			return true
+	lbl := octants[0].Labels[0]
+	for i := 1; i < 8; i++ {
+		if octants[i] == nil || len(octants[i].Labels) != 1 || lbl != octants[i].Labels[0] {
+			return false
 		}
 	}
-	return false
+	*b = *MakeSolidBlock(lbl, b.Size)
+	return true
 }
 
 // DownresSlow is same as Downres() but uses simpler and more memory/compute-intensive
